@@ -280,6 +280,12 @@ func runPlans(plansPath string) {
 	run := 0
 	const watchdog = 15 * time.Second // a fault-free statement of the corpus takes well under a millisecond
 	for sc.Scan() {
+		if stats["timeouts"] >= 5 {
+			// five statements already hung (each confirmed by a second attempt): the verdict is settled and every
+			// further hang would cost two more watchdog periods
+			stats["plans_skipped_after_5_timeouts"]++
+			continue
+		}
 		var p plan
 		must(json.Unmarshal(sc.Bytes(), &p))
 		run++
